@@ -696,9 +696,10 @@ pub fn program_set<const A: bool>(set: &str) -> Vec<Program<MpscFam<A>>> {
                 gen_shape(&Shape { cap, main_receives: true, rx_style: Style::Async, tx_style: Style::Async, senders: 1, ks: 3, kr: 3, max_size: 6, rich: true }, &mut out);
                 gen_shape(&Shape { cap, main_receives: true, rx_style: Style::Async, tx_style: Style::Async, senders: 2, ks: 2, kr: 3, max_size: 5, rich: false }, &mut out);
                 gen_shape(&Shape { cap, main_receives: false, rx_style: Style::Async, tx_style: Style::Async, senders: 1, ks: 3, kr: 3, max_size: 6, rich: true }, &mut out);
-                gen_shape(&Shape { cap, main_receives: false, rx_style: Style::Blocking, tx_style: Style::Blocking, senders: 2, ks: 2, kr: 2, max_size: 4, rich: false }, &mut out);
+                let mb = if cap == Some(1) { 5 } else { 4 };
+                gen_shape(&Shape { cap, main_receives: false, rx_style: Style::Blocking, tx_style: Style::Blocking, senders: 2, ks: 2, kr: 2, max_size: mb, rich: false }, &mut out);
                 gen_shape(&Shape { cap, main_receives: false, rx_style: Style::Blocking, tx_style: Style::Async, senders: 1, ks: 3, kr: 3, max_size: 6, rich }, &mut out);
-                gen_shape(&Shape { cap, main_receives: true, rx_style: Style::Async, tx_style: Style::Blocking, senders: 2, ks: 2, kr: 2, max_size: 4, rich: false }, &mut out);
+                gen_shape(&Shape { cap, main_receives: true, rx_style: Style::Async, tx_style: Style::Blocking, senders: 2, ks: 2, kr: 2, max_size: mb, rich: false }, &mut out);
             } else {
                 // three-thread programs: 3 operations, 4 only for capacity 1 with main receiving
                 let m3 = if cap == Some(2) { 3 } else { 4 };
